@@ -641,7 +641,7 @@ Proof.
       subst i. destruct c as [s m k l]. cbn [rc_k] in Ek. subst k.
       unfold Replay.rstep. cbn [rc_k rc_st rc_obs rc_rlog].
       destruct (r_sched s) as [|[[it o] c] rest] eqn:Es; cbn [rc_k rc_st].
-      * split; [intros _; exact Es|intros H; congruence].
+      * split; [intros _; exact Es|intros H; exfalso; apply H; reflexivity].
       * destruct c; cbn [rc_k rc_st].
         { split; [discriminate|intros _; exists []; reflexivity]. }
         destruct (m o) as [os|]; cbn [rc_k rc_st]; [|split; [discriminate|intros _; exists []; reflexivity]].
@@ -672,4 +672,111 @@ Proof.
   split; [apply Inv_init|]. split.
   - split; [split; cbn; [constructor|intros i []]|]. intros o os H. discriminate.
   - intros o os H. discriminate.
+Qed.
+
+(* ---- the entitlement has at most one terminal notification, at its very end ---- *)
+Section Shape.
+Context {A : Type} (b : Z) (w : option Z).
+
+Lemma rg_step_dead_stays (g : @rg A) p : rg_live g = false -> rg_live (rg_step g p) = false.
+Proof.
+  intros H. destruct p; cbn [rg_step]; rewrite ?H; try exact H; try reflexivity.
+  destruct (d <? 0); exact H.
+Qed.
+
+Lemma xview_dead o : forall ops (g : @rg A), rg_live g = false -> xview b w o true g ops = [].
+Proof.
+  induction ops as [|p t IH]; intros g H; [reflexivity|]. cbn [xview].
+  unfold rnote. rewrite H. cbn [app]. apply IH. now apply rg_step_dead_stays.
+Qed.
+
+Lemma has_term_nexts {X} (f : X -> A) (l : list X) : has_term (map (fun x => Next (f x)) l) = false.
+Proof. induction l; [reflexivity|exact IHl]. Qed.
+
+Lemma xview_shape o : forall ops ph (g : @rg A),
+  exists l t, xview b w o ph g ops = l ++ t /\ has_term l = false /\ (t = [] \/ exists x, t = [x]).
+Proof.
+  induction ops as [|p ops IH]; intros ph g.
+  - exists [], []. repeat split. now left.
+  - cbn [xview]. destruct ph.
+    + unfold rnote. destruct (rg_live g) eqn:Hl.
+      * destruct p as [o'|o'|v|e| | |d];
+          try (match goal with |- context [xview b w o true ?g' ops] =>
+                 destruct (IH true g') as (l & t & E & Hn & Ht) end; rewrite E; exists l, t;
+               repeat split; assumption).
+        -- destruct (IH true (rg_step g (RNext v))) as (l & t & E & Hn & Ht). rewrite E.
+           exists (Next v :: l), t. repeat split; assumption.
+        -- rewrite xview_dead by (cbn [rg_step]; now rewrite Hl). exists [], [Err e]. repeat split. right. eauto.
+        -- rewrite xview_dead by (cbn [rg_step]; now rewrite Hl). exists [], [Done]. repeat split. right. eauto.
+      * rewrite xview_dead by now apply rg_step_dead_stays. exists [], []. repeat split. now left.
+    + destruct p as [o'|o'|v|e| | |d]; try apply IH.
+      destruct (Nat.eqb o' o); [|apply IH]. cbn [rg_step]. unfold rgreet, replayed.
+      destruct (rg_status g) as [|t0|] eqn:Hs.
+      * destruct (IH true g) as (l & t & E & Hn & Ht). rewrite E.
+        exists (map (fun x => Next (snd x)) (retained b w (rg_clock g) (rg_all g)) ++ l), t.
+        split; [now rewrite app_assoc|]. split; [|exact Ht].
+        rewrite has_term_app, has_term_nexts, Hn. reflexivity.
+      * rewrite xview_dead by (unfold rg_live; now rewrite Hs).
+        exists (map (fun x => Next (snd x)) (retained b w (rg_clock g) (rg_all g))), [t0].
+        split; [now rewrite app_nil_r|]. split; [apply has_term_nexts|right; eauto].
+      * rewrite xview_dead by (unfold rg_live; now rewrite Hs).
+        exists [], [Err disposed_exn]. repeat split. right. eauto.
+Qed.
+
+Lemma prefix_snoc {X} (p l : list X) x : prefix p (l ++ [x]) -> p = l ++ [x] \/ prefix p l.
+Proof.
+  revert p; induction l as [|y l IH]; intros p [r Hr]; cbn [app] in *.
+  - destruct p as [|z p]; [right; apply prefix_nil|]. cbn in Hr. injection Hr as -> Hp.
+    destruct p; [now left|discriminate].
+  - destruct p as [|z p]; [right; apply prefix_nil|]. cbn in Hr. injection Hr as -> Hp.
+    destruct (IH p (ex_intro _ r Hp)) as [->|[r2 ->]]; [now left|right]. now exists r2.
+Qed.
+
+Lemma has_term_prefix (p l : list (ev A)) : prefix p l -> has_term l = false -> has_term p = false.
+Proof. intros [r ->]. rewrite has_term_app. intros H. apply orb_false_iff in H. tauto. Qed.
+
+(* a prefix of the entitlement that contains a terminal notification is all of it *)
+Lemma prefix_with_terminal_is_all o ops ph (g : @rg A) (v : list (ev A)) :
+  prefix v (xview b w o ph g ops) -> has_term v = true -> v = xview b w o ph g ops.
+Proof.
+  destruct (xview_shape o ops ph g) as (l & t & -> & Hn & Ht). intros Hp Hv.
+  destruct Ht as [->|[x ->]].
+  - rewrite app_nil_r in Hp. rewrite (has_term_prefix v l Hp Hn) in Hv. discriminate.
+  - destruct (prefix_snoc v l x Hp) as [->|Hp2]; [reflexivity|].
+    rewrite (has_term_prefix v l Hp2 Hn) in Hv. discriminate.
+Qed.
+End Shape.
+
+(* C22, completeness, arbitrary call trees: when a run has finished (every
+   top-level call made and the scheduler drained after each), an observer that
+   has not unsubscribed -- its wrapper is still live, or it was stopped by a
+   terminal notification -- has received EXACTLY its entitlement: the retained
+   values at its subscription, the terminal if any, and every later notification *)
+Theorem replay_complete {A} (react : nat -> nat -> list (@rop A)) (bs w : option Z) (top : list (@rop A))
+        (fuel o : nat) os :
+  let c := rrun react fuel (rinit_cfg bs w top) in
+  rc_k c = [] -> rc_obs c o = Some os ->
+  (ra_stopped os = false \/ has_term (rview o (rlog_of c)) = true) ->
+  rview o (rlog_of c) = xview (bufsize_of bs) w o false rg_init (ops_of (rlog_of c)).
+Proof.
+  cbv zeta. intros Hk Hm Hcase.
+  set (c := rrun react fuel (rinit_cfg bs w top)) in *.
+  assert (HK : K (bufsize_of bs) w c).
+  { apply (rrun_ind react (K (bufsize_of bs) w)); [apply K_step|apply K_init]. }
+  assert (HM : Mq c).
+  { apply (rrun_ind react Mq); [apply Mq_step|apply Mq_init]. }
+  destruct HK as (I & HJ & HQ). destruct HM as [M1 _].
+  destruct (ra_stopped os) eqn:Hs.
+  - destruct Hcase as [|Ht]; [discriminate|].
+    apply prefix_with_terminal_is_all; [|exact Ht].
+    exact (Inv_prefix react (bufsize_of bs) w c o I).
+  - destruct (inv_some _ _ _ I o os Hm) as [_ Hok]. unfold obs_ok in Hok. rewrite Hs in Hok.
+    destruct Hok as [Heq _]. rewrite Hk in Heq. cbn [inflight app] in Heq.
+    assert (Hq : so_queue (r_so os) = []).
+    { apply (HQ o os Hm Hs). destruct (so_acquired (r_so os)) eqn:Ha; [|reflexivity]. exfalso.
+      destruct (proj2 HJ o os Hm) as (_ & _ & Lv). destruct (Lv Hs) as [_ R].
+      destruct (R Ha) as [[i Hi]|Hin].
+      - rewrite (M1 Hk) in Hi. destruct Hi.
+      - rewrite Hk in Hin. destruct Hin. }
+    rewrite Hq, app_nil_r in Heq. exact Heq.
 Qed.
